@@ -1,5 +1,7 @@
 CONSTANTS Urls <- UrlsC
           Texts <- TextsC
+          Cfgs <- CfgsC
+          ConfigRebuilds = TRUE
           MaxMsgs = 4
           MaxInFlight = 1
           VersionGuard = FALSE
